@@ -83,8 +83,22 @@ def run(ctx):
             plans.append((units, style, period, f, off))
     model = coq_eval_sharded(['Model.TimeUnits'], exprs, shard=max(50, len(exprs) // 14), workers=14)
     ctx.leg('format_cases', len(exprs))
-    for (units, style, period, f, off), mres in zip(plans, model):
-        case = {'units': units, 'offset_minutes': off, 'spelling': style}
+    import time as _time
+    zones = [None, 'AEST-10AEDT,M10.1.0,M4.1.0/3', 'EST5EDT,M3.2.0,M11.1.0', 'IST-5:30', 'UTC0']
+    saved_tz = os.environ.get('TZ')
+    for k_, ((units, style, period, f, off), mres) in enumerate(zip(plans, model)):
+        # the process runs in various local time zones: what is written depends on the units string only
+        zone = zones[k_ % len(zones)]
+        if zone is None:
+            if saved_tz is None:
+                os.environ.pop('TZ', None)
+            else:
+                os.environ['TZ'] = saved_tz
+        else:
+            os.environ['TZ'] = zone
+        _time.tzset()
+        ctx.count(f'process time zone:{zone or "as started"}')
+        case = {'units': units, 'offset_minutes': off, 'spelling': style, 'TZ': zone}
         ctx.case(units, off != 0, sample=case if off in (-570, 300) else None)
         ctx.count(f'spelling:{style}')
         ctx.count('offset:' + ('negative' if off < 0 else 'zero' if off == 0 else 'positive') +
@@ -112,6 +126,12 @@ def run(ctx):
         elif codes(out) != mres:
             ctx.report('correspondence', f'model TimeUnits.render gives {"".join(map(chr, mres))!r}, implementation {out!r}', case,
                        found_input=False)
+
+    if saved_tz is None:
+        os.environ.pop('TZ', None)
+    else:
+        os.environ['TZ'] = saved_tz
+    _time.tzset()
 
     # ---------------- (B) save / reopen
     n_ds = 24 if quick else 150
